@@ -166,15 +166,19 @@ char PROTO_ICACHE_FLASH sproto_out_buffer_append(void *spd_ptr,
 
   if (packet_size > sdp_size) return SUPLA_RESULT_DATA_TOO_LARGE;
 
-  if (SUPLA_RESULT_TRUE ==
+  char result =
       sproto_buffer_append(spd_ptr, &spd->out.buffer, &spd->out.size,
-                           &spd->out.data_size, (char *)sdp, packet_size)) {
+                           &spd->out.data_size, (char *)sdp, packet_size);
+
+  if (SUPLA_RESULT_TRUE == result) {
     return sproto_buffer_append(spd_ptr, &spd->out.buffer, &spd->out.size,
                                 &spd->out.data_size, sproto_tag,
                                 SUPLA_TAG_SIZE);
   }
 
-  return (SUPLA_RESULT_FALSE);
+  // SUPLA_RESULT_BUFFER_OVERFLOW must reach srpc_iterate: the packet has
+  // already been removed from the out queue and would be lost silently.
+  return result;
 }
 
 unsigned _supla_int_t PROTO_ICACHE_FLASH sproto_pop_out_data(
